@@ -30,12 +30,12 @@ GEN_NEAR = tspec.TypeGen(max_depth=3)
 
 @st.composite
 def st_case(draw):
-    direction = "dump" if draw(st.integers(0, 4)) == 0 else "load"
+    direction = "dump" if draw(st.integers(0, 2)) == 0 else "load"
     if direction == "dump":
         t = draw(GEN_NEAR.strategy())
         val = draw(tspec.st_value(t))
         nbad = draw(st.integers(0, 2))
-        bad = [[draw(st.integers(0, 50)), draw(st.sampled_from(soup._LEAVES))] for _ in range(nbad)]
+        bad = [[draw(st.integers(0, 50)), draw(st.one_of(st.sampled_from(soup._LEAVES), st.just("__delete__")))] for _ in range(nbad)]
         return {"dir": "dump", "t": t, "v": val, "bad": bad, "strict": True, "provs": [], "layouts": {}}
     near = draw(st.integers(0, 9)) < 6
     if near:
@@ -57,6 +57,17 @@ def corrupt_value(vspec, bad):
     """Replace the k-th leaf position (mod count) of a canonical value spec by a wrong-typed leaf."""
     for idx, leaf in bad:
         pos = [p for p in soup.positions(vspec) if p]
+        if leaf == "__delete__":
+            # delete one field of a model value (meaningful for TypedDict: a required key is missing while dumping)
+            fpos = [p for p in pos if len(p) >= 2 and p[-2] == "f"]
+            if not fpos:
+                continue
+            target = fpos[idx % len(fpos)]
+            import copy  # noqa: PLC0415
+            vspec = copy.deepcopy(vspec)
+            holder = soup.get_at(vspec, target[:-1])
+            holder.pop(target[-1], None)
+            continue
         if not pos:
             return leaf
         vspec = soup.set_at(vspec, pos[idx % len(pos)], leaf)
